@@ -1881,9 +1881,15 @@ where
 
     fn unexpected_start_tag_in_foreign_content(&self, tag: Tag) -> ProcessResult<Handle> {
         self.unexpected(&tag);
-        while !self.current_node_in(|n| {
+        // Pop until a MathML text integration point, an HTML integration point (SVG
+        // foreignObject/desc/title or a MathML annotation-xml flagged as one) or an HTML element.
+        while !(self.current_node_in(|n| {
             *n.ns == ns!(html) || mathml_text_integration_point(n) || svg_html_integration_point(n)
-        }) {
+        }) || (self.current_node_in(|n| n == expanded_name!(mathml "annotation-xml"))
+            && self
+                .sink
+                .is_mathml_annotation_xml_integration_point(&self.current_node())))
+        {
             self.pop();
         }
         self.step(self.mode.get(), Token::Tag(tag))
